@@ -1066,11 +1066,16 @@ def cover(behs, rng, n, per=1):
     return [behs[k] for k in sorted(set(chosen))]
 
 
-def make_episodes(behs, start_ep, classes=CLASSES):
+TWINS = {"Kernel2D": 0, "Array2D": 1, "VisibilitiesNoiseMap": 0, "Visibilities": 1}  # classes that share every code path here
+
+
+def make_episodes(behs, start_ep, classes=CLASSES, alternate=False):
     epis = []
     ep = start_ep
-    for b in behs:
+    for n, b in enumerate(behs):
         for cls in classes:
+            if alternate and cls in TWINS and n % 2 != TWINS[cls]:
+                continue  # quick tier: twin classes take turns on the deep family (each still sees every other family in full)
             e = instantiate(b, cls, ep)
             if e is not None and e["actions"]:
                 epis.append(e)
@@ -1102,7 +1107,7 @@ def run(ctx):
     sim_depth = 4
     with cf.ThreadPoolExecutor(max_workers=4) as ex:
         # (C) seeded simulation of the full alphabet, deeper (thorough tier: TLC computes every successor at every step)
-        fc = None if quick else ex.submit(simulate_machine, ctx, "MC_sim", 200, sim_depth, shapes=shapes_upto(4))
+        fc = None if quick else ex.submit(simulate_machine, ctx, "MC_sim", 120, sim_depth, shapes=shapes_upto(4))
         fa = ex.submit(enumerate_machine, ctx, "MC_wide", shapes=shapes_upto(wide_cells), maxlen=1)
         # (thorough: every sequence on every mask of 1x2 and 2x2 is explored and checked; those of 1x2 are dumped for replay)
         fb = ex.submit(enumerate_machine, ctx, "MC_deep", shapes=[(1, 2), (2, 2)], maxlen=deep_len,
@@ -1112,7 +1117,7 @@ def run(ctx):
         behC = [] if fc is None else fc.result()
     ctx.exhaustive = True
     # (D) seeded random larger frames and longer histories (kinds and values beyond the machine's alphabet)
-    nD = 50 if quick else 1000
+    nD = 40 if quick else 1000
     behD = [random_behaviour(rng, 5 if quick else 8, int(rng.integers(4, 9 if quick else 13))) for _ in range(nD)]
 
     selA = cover(behA, rng, 300 if quick else 10000)
@@ -1126,7 +1131,9 @@ def run(ctx):
                   "random": {"behaviours": len(behD), "max_side": 5 if quick else 8},
                   "selection": "one behaviour of every signature (which action kind touches which object, in order), then a seeded sample",
                   "classes": CLASSES}
-    epis, ep = make_episodes(selA + selB + behC + behD, 0)
+    epis, ep = make_episodes(selA + behC + behD, 0)
+    epis1, ep = make_episodes(selB, ep, alternate=quick)
+    epis += epis1
     epis2, ep = make_episodes(selK, ep, classes=CACHED_CLASSES)
     epis += epis2
     ctx.replayed = len(selA) + len(selB) + len(selK) + len(behC)
